@@ -428,4 +428,25 @@ def clientView {α : Type} [Inhabited α] : List (Item α) → List α × Option
     -- `{"error":""}` is not recognised as an error: it is decoded as a (zero) message
     if e.isEmpty then let (ms, e') := clientView rest; (default :: ms, e') else ([], some e)
 
+
+/-! ### `api.Client.stream` with the scanner's line limit
+
+    `stream` reads the body with a `bufio.Scanner` whose buffer holds `maxBufferSize` bytes: a line
+    (without its newline) of `limit` bytes or more cannot be held, `Scan` returns false and
+    `scanner.Err()` is `ErrTooLong`.  Pinned: the error is never looked at — `stream` returns nil as if
+    the body had ended there.  Repaired (C17-F17e.patch): the error is returned.
+    Each item comes with the length of its line on the wire (an input: JSON encoding is not modelled). -/
+
+/-- `bufio.ErrTooLong.Error()` -/
+def sTooLong : Bytes := [98, 117, 102, 105, 111, 46, 83, 99, 97, 110, 110, 101, 114, 58, 32, 116, 111, 107, 101, 110, 32, 116, 111, 111, 32, 108, 111, 110, 103]
+
+def clientViewL {α : Type} [Inhabited α] (limit : Nat) (fixed : Bool) : List (Item α × Nat) → List α × Option Bytes
+  | [] => ([], none)
+  | (it, n) :: rest =>
+    if limit ≤ n then ([], if fixed then some sTooLong else none)
+    else match it with
+      | .msg m => let (ms, e) := clientViewL limit fixed rest; (m :: ms, e)
+      | .err e =>
+        if e.isEmpty then let (ms, e') := clientViewL limit fixed rest; (default :: ms, e') else ([], some e)
+
 end OllamaVerif.Stream
